@@ -252,3 +252,148 @@ pub fn replay_paths(args: &[String]) -> i32 {
     }
     0
 }
+
+// ---------------------------------------------------------------------------------------
+/// `pfv guards <spec.json> <out-prefix>`: exhaustive comparison of the implementation's
+/// enabled sets with the model's guard table (GuardTable.tla rows) over every abstract
+/// stack up to the table's depth.  Each state is CONSTRUCTED in the real generator by one
+/// canonical opcode recipe per kind.  Writes mismatches and, for every opcode the
+/// implementation enables beyond the model, forced-emission edges for TraceEdges.
+#[derive(Deserialize)]
+struct GuardSpec {
+    cfg: Cfg,
+    table: String,
+    /// memo prefix: 0 = empty memo, 1 = one Scalar entry at key 0
+    #[serde(default)]
+    memo_one: bool,
+    seeds: Vec<u64>,
+    tag: String,
+}
+
+fn abs_kind(k: u8) -> u8 {
+    match k { 0 => 0, 1..=4 => 1, 5 | 7 => 2, 6 => 3, 8 => 4, 9 => 5, 10 => 6, 11 => 7, 12 => 8, 13 | 15 => 9, 14 => 10, _ => 11 }
+}
+
+fn recipe(kind: u8, p: usize) -> Option<Vec<u8>> {
+    let tuple: Vec<u8> = if p >= 1 { vec![0x29] } else { vec![0x28, 0x74] };
+    Some(match kind {
+        0 => vec![0x28],
+        1 => vec![0x4e],
+        2 => if p >= 3 { vec![0x42] } else if p >= 1 { vec![0x54] } else { return None },
+        3 => vec![0x56],
+        4 => if p >= 1 { vec![0x5d] } else { vec![0x28, 0x6c] },
+        5 => tuple,
+        6 => if p >= 1 { vec![0x7d] } else { vec![0x28, 0x4e, 0x4e, 0x64] },
+        7 => if p >= 4 { vec![0x8f] } else { return None },
+        8 => if p >= 4 { vec![0x28, 0x91] } else { return None },
+        9 => vec![0x63],
+        10 => { let mut v = vec![0x63]; v.extend(tuple); v.push(0x52); v }
+        _ => return None,
+    })
+}
+
+pub fn guards(args: &[String]) -> i32 {
+    let specs: Vec<GuardSpec> = serde_json::from_str(&std::fs::read_to_string(&args[0]).expect("read")).expect("parse");
+    std::panic::set_hook(Box::new(|_| {}));
+    let order = all_ops_sorted();
+    let mut handles = Vec::new();
+    for (si, gs) in specs.into_iter().enumerate() {
+        let order = order.clone();
+        let outp = format!("{}{}.ndjson", args[1], si);
+        handles.push(std::thread::spawn(move || {
+            let mut out = std::io::BufWriter::new(std::fs::File::create(&outp).expect("create"));
+            let text = std::fs::read_to_string(&gs.table).expect("table");
+            let (mut rows, mut compared, mut skipped, mut mismatched, mut edges) = (0usize, 0usize, 0usize, 0usize, 0usize);
+            let mut mism: Vec<Value> = Vec::new();
+            let cfgj = json!({"P": gs.cfg.p, "ext": if gs.cfg.ext {1} else {0}, "buf": if gs.cfg.buf {1} else {0},
+                              "unsafe": if gs.cfg.unsafe_ {1} else {0}, "min": 0, "max": 0});
+            for line in text.lines() {
+                if !line.starts_with("<<\"ROW\"") { continue; }
+                rows += 1;
+                // <<"ROW", <<k, k, ...>>, m1, m2, m3>>
+                let inner = &line[line.find(',').unwrap() + 1..line.rfind(">>").unwrap()];
+                let close = inner.find(">>").unwrap();
+                let stk: Vec<u8> = inner[inner.find("<<").unwrap() + 2..close].split(',').filter_map(|x| x.trim().parse().ok()).collect();
+                let masks: Vec<u32> = inner[close + 2..].split(',').filter_map(|x| x.trim().parse().ok()).collect();
+                if masks.len() != 3 { continue; }
+                // construct the state
+                let mut path: Vec<Step> = Vec::new();
+                let mut g = fresh(&gs.cfg);
+                let mut ok = true;
+                let mut plan: Vec<u8> = Vec::new();
+                if gs.memo_one { plan.extend([0x4e, 0x70, 0x30]); }
+                for k in &stk {
+                    match recipe(*k, gs.cfg.p) { Some(r) => plan.extend(r), None => { ok = false; break; } }
+                }
+                if ok {
+                    for b in &plan {
+                        let op = op_by_byte(*b).unwrap();
+                        if !g.verif_valid_opcodes().contains(&op) { ok = false; break; }
+                        match force(&mut g, op, 1) { Ok(bytes) => path.push(Step { op, seed: 1, bytes }), Err(_) => { ok = false; break; } }
+                    }
+                }
+                let pre = proj(&g);
+                if !ok || pre.0.iter().map(|k| abs_kind(*k)).collect::<Vec<u8>>() != stk { skipped += 1; continue; }
+                compared += 1;
+                let enabled = g.verif_valid_opcodes();
+                let m = enabled_mask(&enabled, &order);
+                if m[0] == masks[0] && m[1] == masks[1] && m[2] == masks[2] { continue; }
+                mismatched += 1;
+                let bit = |mm: &[u32], i: usize| (mm[i / 24] >> (i % 24)) & 1 == 1;
+                let impl_only: Vec<OpcodeKind> = (0..order.len()).filter(|i| bit(&m, *i) && !bit(&masks, *i)).map(|i| order[i]).collect();
+                let model_only: Vec<u8> = (0..order.len()).filter(|i| !bit(&m, *i) && bit(&masks, *i)).map(|i| order[i].as_u8()).collect();
+                if mism.len() < 50 {
+                    mism.push(json!({"stk": stk, "impl_only": impl_only.iter().map(|o| o.as_u8()).collect::<Vec<u8>>(), "model_only": model_only}));
+                }
+                let pathj: Vec<Value> = path.iter().map(|s| json!([s.op.as_u8(), s.bytes])).collect();
+                for op in impl_only {
+                    for &seed in &gs.seeds {
+                        if edges >= 3000 { break; }
+                        let mut g2 = rebuild(&gs.cfg, &path);
+                        let res = std::panic::catch_unwind(std::panic::AssertUnwindSafe(|| force(&mut g2, op, seed)));
+                        let (bytes, post, err) = match res {
+                            Ok(Ok(b)) => (b, proj(&g2), String::new()),
+                            Ok(Err(e)) => (Vec::new(), proj(&g2), e),
+                            Err(_) => (Vec::new(), pre.clone(), "panic".to_string()),
+                        };
+                        edges += 1;
+                        writeln!(out, "{}", json!({"cfg": cfgj, "path": pathj, "op": op.as_u8(), "seed": seed.to_string(), "bytes": bytes,
+                            "pre": proj_json(&pre), "post": proj_json(&post), "en": m, "err": err, "depth": path.len()})).unwrap();
+                        // follow the forced emission through the collapse phase and STOP: one edge per tail opcode
+                        if err.is_empty() && seed == gs.seeds[0] {
+                            let mut tail_path = pathj.clone();
+                            tail_path.push(json!([op.as_u8(), bytes]));
+                            let before_len = g2.output.len();
+                            verif::start_recording(false);
+                            let _ = std::panic::catch_unwind(std::panic::AssertUnwindSafe(|| { g2.verif_cleanup(); g2.verif_emit_stop(); }));
+                            let evs = verif::stop_recording();
+                            let mut cur: Vec<u8> = post.0.clone();
+                            let mut prev_len = before_len;
+                            for e in &evs {
+                                let Some(eop) = e.op else { continue };
+                                if e.out_len <= prev_len || e.out_len > g2.output.len() { continue; }
+                                let tb = g2.output[prev_len..e.out_len].to_vec();
+                                prev_len = e.out_len;
+                                let pre_t: Proj = (cur.clone(), post.1.clone());
+                                // the recorder starts from an empty view: its first event reports the whole stack
+                                cur.truncate(e.kept.min(cur.len()));
+                                if e.kept == 0 && e.pushed.len() >= cur.len() { cur = e.pushed.clone(); } else { cur.extend_from_slice(&e.pushed); }
+                                let post_t: Proj = (cur.clone(), post.1.clone());
+                                let en_t = enabled_mask(&[], &order);
+                                edges += 1;
+                                writeln!(out, "{}", json!({"cfg": cfgj, "path": tail_path, "op": eop.as_u8(), "seed": "0", "bytes": tb,
+                                    "pre": proj_json(&pre_t), "post": proj_json(&post_t), "en": en_t, "err": "", "depth": tail_path.len(), "tail": 1})).unwrap();
+                                tail_path.push(json!([eop.as_u8(), tb]));
+                            }
+                        }
+                    }
+                }
+            }
+            json!({"file": outp, "tag": gs.tag, "rows": rows, "compared": compared, "unconstructible": skipped,
+                   "mismatched": mismatched, "edges": edges, "mismatches": mism})
+        }));
+    }
+    let summary: Vec<Value> = handles.into_iter().map(|h| h.join().expect("worker")).collect();
+    println!("{}", serde_json::to_string(&summary).unwrap());
+    0
+}
